@@ -15,6 +15,12 @@ if ROUND == '1':
     SRC = '/tmp/seed_%s/out'
     NAME = '%s_%d'
     LOGPREFIX = 'out/patch'
+elif ROUND == '7':
+    PAIRS = [('/tmp/seed7_batch.sh', '/tmp/seedrun7.log'), ('/tmp/seed7_batch2.sh', '/tmp/seedrun7b.log')]
+    CONF = '/tmp/confirm_seeds7.log'
+    SRC = '/tmp/seedout7_%s'
+    NAME = '%s_r7_%d'
+    LOGPREFIX = 'seedout7_'
 elif ROUND == '6':
     PAIRS = [('/tmp/seed6_batch.sh', '/tmp/seedrun6.log'), ('/tmp/seed6_batch2.sh', '/tmp/seedrun6b.log')]
     CONF = '/tmp/confirm_seeds6.log'
@@ -50,6 +56,18 @@ else:
 def main():
     results = {}
     for BATCH, DETLOG in PAIRS:
+        if ROUND >= '7':
+            # the log lines name the seed themselves: <out>_<P>/patch<k>.diff <check> <verdict> (<s>s) <what>
+            fresh = {}
+            for l in open(DETLOG):
+                m = re.match(r'\S*?_(C\d+)/patch(\d)\.diff (C\d+) (\S+(?:\(exit \d+\))?) \((\d+)s\) ?(.*)', l)
+                if m:
+                    fresh.setdefault((m.group(1), int(m.group(2))), []).append(
+                        {'check': m.group(3), 'verdict': m.group(4), 'seconds': int(m.group(5)), 'what': m.group(6)[:160]})
+            for key, rs in fresh.items():
+                old = [r for r in results.get(key, []) if r['check'] not in {x['check'] for x in rs}]
+                results[key] = old + rs
+            continue
         runs = []
         for l in open(BATCH):
             m = re.match(r'run (C\d+) patch(\d) (.*)', l.strip())
